@@ -67,6 +67,8 @@ def mutate_dicts(rng, t, depth):
 
 def gen(rng, tier):
     n = 1500 if tier == "quick" else 12000
+    yield from gen_index(rng.fork("index"), n // 3)
+    yield from gen_index_directed(rng.fork("indexd"), n // 3)
     for _ in range(n):
         d = 2 + rng.below(3)
         a = dict_tree(rng, d)
@@ -94,6 +96,9 @@ def gen(rng, tier):
             if rng.chance(0.1):
                 name += ".*"
             fk = rng.pick(FIELD)
+            if g and rng.chance(0.35):
+                # a per-field policy equal to the one already in force, next to other options
+                fk = {"Replace": "FieldReplace", "Append": "FieldAppend", "Prepend": "FieldPrepend"}.get(g, fk)
             opts.append(opt(fk, [name]))
             names.append(p)
             kinds.append(fk)
@@ -107,6 +112,69 @@ def gen(rng, tier):
                "_sig": "%s|%s|%s|%s|%s|%s" % (g, "+".join(kinds), max(len(p) for p in names), elsewhere, sep_first,
                                               ",".join(sorted(conflict_sig(a, b)))),
                "_nt": nt}
+
+
+def list_tree(rng, depth):
+    """dictionaries whose values are lists of objects and nested lists (for index / '*' field paths)"""
+    out = []
+    for k in rng.shuffle(KEYS)[:1 + rng.below(3)]:
+        r = rng.below(4)
+        if r == 0 and depth > 1:
+            out.append((k, list_tree(rng, depth - 1)))
+        elif r <= 2:
+            elems = []
+            for _ in range(1 + rng.below(3)):
+                elems.append(M([(k2, A([rand_leaf(rng) for _ in range(rng.below(3))]) if rng.chance(0.5) else rand_leaf(rng))
+                                for k2 in rng.shuffle(KEYS)[:1 + rng.below(2)]]) if rng.chance(0.7) else rand_leaf(rng))
+            out.append((k, A(elems)))
+        else:
+            out.append((k, rand_leaf(rng)))
+    return M(out)
+
+
+def gen_index(rng, n):
+    """field paths with list-index and '*' segments (existing, tested behaviour): model comparison only"""
+    for _ in range(n):
+        a = list_tree(rng, 3)
+        b = mutate_dicts(rng, a, 3) if rng.chance(0.5) else list_tree(rng, 3)
+        # keep list shapes comparable: merge b's structure from a second draw of the same generator seed family
+        opts = [opt("PathSep", ".")]
+        g = rng.pick(POLICIES)
+        if g:
+            opts.append(opt(g))
+        for _ in range(1 + rng.below(2)):
+            p = [rng.pick(KEYS)]
+            for _ in range(rng.below(3)):
+                p.append(rng.pick([str(rng.below(3)), "*", rng.pick(KEYS), rng.pick(KEYS)]))
+            opts.append(opt(rng.pick(FIELD), [".".join(p)]))
+        yield {"k": "merge", "a": a, "optsA": [], "steps": [{"b": b, "opts": opts}], "_tag": "field-index/" + (g or "default"),
+               "_sig": "index|%s|%s" % (g, ",".join(sorted(conflict_sig(a, b)))), "_nt": True}
+
+
+def gen_index_directed(rng, n):
+    """an index (or '*') path whose named prefix is an object in the data, with lists of objects one or two
+    levels further down in both trees: the index policy must not reach those nested lists"""
+    def objs(tagkeys):
+        return A([M([(rng.pick(tagkeys) + str(i), S(rng.pick(["old", "new", "x"])))] + ([("s", U(i))] if rng.chance(0.4) else []))
+                  for i in range(2 + rng.below(2))])
+    for _ in range(n):
+        k1, k2, k3 = rng.pick(KEYS), rng.pick(KEYS), rng.pick(KEYS)
+        shape = rng.below(3)
+        if shape == 0:      # k1 is an object holding a list under k2
+            a = M([(k1, M([(k2, objs(["k"]))]))]); b = M([(k1, M([(k2, objs(["n"]))]))])
+        elif shape == 1:    # k1 is the list itself
+            a = M([(k1, objs(["k"]))]); b = M([(k1, objs(["n"]))])
+        else:               # two levels down
+            a = M([(k1, M([(k2, M([(k3, objs(["k"]))]))]))]); b = M([(k1, M([(k2, M([(k3, objs(["n"]))]))]))])
+        seg = rng.pick(["0", "1", "2", "*"])
+        path = rng.pick([[k1, seg], [k1, k2, seg], [k1, seg, "s"], [k1, "*", k2]])
+        opts = [opt("PathSep", ".")]
+        g = rng.pick(POLICIES)
+        if g:
+            opts.append(opt(g))
+        opts.append(opt(rng.pick(FIELD), [".".join(path)]))
+        yield {"k": "merge", "a": a, "optsA": [], "steps": [{"b": b, "opts": opts}], "_tag": "field-index-directed/" + (g or "default"),
+               "_sig": "indexd|%s|%s|%s|%s" % (g, shape, seg, len(path)), "_nt": True}
 
 
 def nontrivial(case, impl):
